@@ -53,6 +53,7 @@ func (fx *FuncCtx) resetPass() {
 	fx.prevSymLine, fx.symLine = fx.symLine, map[string]int{}
 	fx.prevHeadLine, fx.headLine = fx.headLine, map[*ssa.BasicBlock]int{}
 	fx.sliceArr = map[string]string{}
+	fx.seeded = map[string]bool{}
 	fx.lines = nil
 	fx.obls = nil
 	fx.n = 0
@@ -168,6 +169,12 @@ func (fx *FuncCtx) pass() bool {
 		fx.params[fv.Name()] = v
 	}
 	fx.entry = entry.clone()
+	fx.ownRecs = nil
+	if fx.ct != nil && len(fx.ct.RecFuns) > 0 {
+		env := fx.clauseEnv(entry, entry, nil)
+		env.fn = nil
+		fx.ownRecs = fx.defineRecFuns(fx.ct, env)
+	}
 	// requires are assumed
 	if fx.ct != nil {
 		for _, c := range fx.ct.Requires {
@@ -177,6 +184,16 @@ func (fx *FuncCtx) pass() bool {
 			if fx.ct.Kind == "func" {
 				fx.coverProbe(entry, "requires."+c.Label, t)
 			}
+		}
+	}
+	if fx.ct != nil {
+		for _, c := range fx.ct.Assumes {
+			env := fx.clauseEnv(entry, entry, nil)
+			env.fn = nil
+			t := fx.evalClause(c, env)
+			fx.assume(entry, t)
+			fx.assumes = append(fx.assumes, fmt.Sprintf("assume %s: %s (because %s)", c.Label, c.Text, c.Because))
+			fx.coverProbe(entry, "assume."+c.Label, t)
 		}
 	}
 	fx.entryAfterReq = entry.clone()
@@ -370,6 +387,10 @@ func (fx *FuncCtx) enterLoop(li *loopInfo, pre *State) *State {
 		}
 		nv := fx.freshVal(st, "lv_"+sanitize(a.Comment), old.Ty)
 		st.Cells[a] = nv
+		if isInteger(old.Ty) {
+			fx.seed(nv.T)
+			fx.seed("(+ " + nv.T + " 1)")
+		}
 	}
 	li.headSt = st.clone()
 	if spec != nil {
@@ -632,14 +653,34 @@ func (fx *FuncCtx) update(term string, t types.Type, path []int, v string) strin
 	return "(" + strings.Join(parts, " ") + ")"
 }
 
+// typeKey names a heap component after the Go type it stores: differently
+// typed slices, maps and cells cannot alias in Go, so they get separate components.
+func typeKey(t types.Type) string {
+	if b, ok := t.(*types.Basic); ok {
+		switch b.Kind() {
+		case types.Uint8:
+			return "uint8"
+		case types.Int32:
+			return "int32"
+		}
+		return b.Name()
+	}
+	if _, ok := t.Underlying().(*types.Interface); ok {
+		if _, named := t.(*types.Named); !named {
+			return "any"
+		}
+	}
+	return sanitize(shortTypeName(t))
+}
+
 func elemComp(u *Universe, elem types.Type) (name, sortName string) {
 	es := u.sortOf(elem)
-	return "E$" + sanitize(es), "(Array Int (Array Int " + es + "))"
+	return "E$" + typeKey(elem), "(Array Int (Array Int " + es + "))"
 }
 
 func cellComp(u *Universe, t types.Type) (name, sortName string) {
 	es := u.sortOf(t)
-	return "C$" + sanitize(es), "(Array Int " + es + ")"
+	return "C$" + typeKey(t), "(Array Int " + es + ")"
 }
 
 func globComp(g *ssa.Global) string {
